@@ -433,7 +433,9 @@ def check_C02(ctx, deep=False):
                 "a case = one successor list compared as a multiset of (move text, placement, side, rights, ep, king squares) "
                 "with the SPEC's apply, plus the printed bestmove text of every picked successor")
     ops = movegen_ops(ctx, 4 if deep else 1)
-    run_and_compare(ctx, ops, [lambda c, r: oracle_gen(c, r, "succ") if r["op"] == "gen all" else None,
+    # every successor the generator can produce: the full generation AND the capture-only generation the
+    # quiescence search uses (same code, another mode: bookkeeping must not depend on the mode)
+    run_and_compare(ctx, ops, [lambda c, r: oracle_gen(c, r, "succ") if r["op"] in ("gen all", "gen cap") else None,
                                oracle_state, oracle_fmt])
 
 
@@ -558,7 +560,7 @@ CHECKS.update({
     "C03": {"fn": props2.check_C03, "engine": True, "trace": True},
     "C07": {"fn": props2.check_C07},
     "C08": {"fn": props2.check_C08, "engine": True, "trace": True},
-    "C09": {"fn": props2.check_C09, "engine": True},
+    "C09": {"fn": props2.check_C09, "engine": True, "trace": True},
     "C10": {"fn": props2.check_C10, "engine": True, "trace": True},
     "C11": {"fn": props2.check_C11},
     "C12": {"fn": props2.check_C12, "engine": True},
